@@ -91,7 +91,8 @@ func c16Linearizable(init string, evs []c16Event, final string) bool {
 					match = e.result == "ok"
 					nv = e.op.new
 				} else {
-					match = e.result == "changed"
+					// a failed CAS is a failed CAS whatever the error kind (the statement only constrains successful ones)
+					match = e.result == "changed" || e.result == "not-found"
 				}
 			}
 			if !match {
